@@ -8,7 +8,8 @@ def tasks(tier):
     return (contract_tasks("contracts.dataplane", "C03", tier=tier) + contract_tasks("contracts.connect", "C03", tier=tier)
             + contract_tasks("contracts.sim_process", "C03", tier=tier, names=["GetOutputs"])
             + other_tasks("contracts.dataplane_bounded", "C03", "bounded") + other_tasks("contracts.determinism_bounded", "C03", "bounded")
-            + other_tasks("contracts.connect_bounded", "C03", "bounded"))
+            + other_tasks("contracts.connect_bounded", "C03", "bounded")
+            + contract_tasks("contracts.tiered_time", "C08"))
 
 
 TRUSTED_BASE = TRUSTED_CORE
